@@ -62,7 +62,6 @@ class R:
 # =========================================================================================== raw TCP / UDP
 def run_stream(case, ctx):
     import stream_harness as sh
-    from mitmproxy.proxy import commands
 
     proto = case["proto"]
     if proto == "tcp":
@@ -129,7 +128,6 @@ def run_stream(case, ctx):
     out = d.out(dst)
     names = d.hook_names()
     if action == "resume":
-        want = (cnt(out, b"ORIGTAG"), )
         if cnt(out, b"ORIGTAG") > 1 or (cnt(out, b"ORIGTAG") != 1 and not peer_gone):
             r.fail("not-forwarded-exactly-once", repr(out))
     elif action == "edit":
@@ -276,7 +274,6 @@ def _dns_reply(qid, label, addr):
 
 def run_dns(case, ctx):
     import stream_harness as sh
-    from mitmproxy import dns
     from mitmproxy.proxy.layers.dns import DNSLayer
 
     hook = case["hook"]  # dns_request | dns_response
